@@ -320,7 +320,10 @@ Section Send.
          (error_body code msg) None None.
 
   (** [CriticalRequestComponents::apply_to_response] (not a stream; not for a 304, which is sent as it is —
-      C09's repair) and the 416 replacement *)
+      C09's repair 9ae9b1a) and the 416 replacement.  Since 21f0154 the replacing page also gets the [vary]
+      header of the host's rules for the request ([vary::apply_header_from_settings]); like [cache-control],
+      [content-type] and the [vary] of the other answers it is not among the headers this model carries (it has
+      no part in the framing and is not compared) *)
   Definition apply_sanitize (r : reply0) : outcome reply0 :=
     match r0_sanitize r with
     | None => Ok r
@@ -433,12 +436,22 @@ Definition unframed (r : reply0) : bool :=
   | _ => false
   end.
 
+(** the last clause of [utils::valid_method] (2dbf4ed): the first space is among the first eight bytes and what
+    precedes it is a method token ([Method::from_bytes(..).is_ok()]: not empty, token bytes) *)
+Fixpoint ext_method (fuel : nat) (seen : bool) (b : bytes) {struct b} : bool :=
+  match b with
+  | [] => false
+  | c :: r =>
+      if c =? 32 then seen
+      else match fuel with O => false | S f => is_tchar c && ext_method f true r end
+  end.
 (** [utils::valid_method] || [utils::valid_version] on the first bytes of a head *)
 Definition valid_start (s : bytes) : bool :=
   existsb (fun p => starts_with p s)
     [B "GET"; B "HEAD"; B "POST"; B "PUT"; B "DELETE"; B "TRACE"; B "OPTIONS"; B "CONNECT"; B "PATCH";
      B "COPY"; B "LOCK"; B "MKCOL"; B "MOVE"; B "PROPFIND"; B "PROPPATCH"; B "UNLOCK";
-     B "HTTP/0.9"; B "HTTP/1.0"; B "HTTP/1.1"; B "HTTP/2"; B "HTTP/3"].
+     B "HTTP/0.9"; B "HTTP/1.0"; B "HTTP/1.1"; B "HTTP/2"; B "HTTP/3"]
+  || ext_method 7 false s.
 
 Section Conn.
   Variable Q : Type.                                   (* a parsed request head *)
